@@ -87,8 +87,11 @@ class ClassGen:
                 ('postfix', [('str', '!')]), ('prefix', [('str', '-')]), ('left', [('str', '*')]), ('left', [('str', '+')])])))
             forms.append(('star', ('left', ('ref', 'Expr'), ('str', ';'))))
         stmts.insert(0, ('rule', 'start', None, r.choice(forms)))
-        if r.random() < 0.5:
+        c = r.random()
+        if c < 0.3:
             stmts.append(('ignore', ('re', '[ \\n]+', False)))
+        elif c < 0.6:
+            stmts.append(('ignore', ('re', '\\s+', False)))       # incl. \r \x0b \x0c \x1c-\x1f \x85 \u2028 \u2029
         return dict(name=None, extends=None, stmts=stmts)
 
     def member(self, j, pool, r):
@@ -203,9 +206,11 @@ def run_one(rec, G, tag, structural, rounds):
     problems = []
     if not wrap_finalize(b.g, counter, problems):
         rec.note('_finalize_parse_info not found')
-    alpha = work.grammar_alphabet(G, ' \n')
     has_ignore = any(s[0] in ('ignore', 'irule') for s in G['stmts'])
-    seeds = [t for t in gen.Sampler(rec.rng, G, ' \n' if has_ignore else '').sentences('start', 60) if len(t) <= 40]
+    wide = any(s[0] == 'ignore' and s[1] == ('re', '\\s+', False) for s in G['stmts'])
+    ign = ' \n\r\x0c\u2028\x0b\x85' if wide else ' \n'
+    alpha = work.grammar_alphabet(G, ign if has_ignore else ' \n')
+    seeds = [t for t in gen.Sampler(rec.rng, G, ign if has_ignore else '').sentences('start', 60) if len(t) <= 40]
     ins = work.guided_inputs(rec.rng, b.chain, alpha, rounds=rounds, maxlen=40, exhaustive_len=1,
                              seeds=[''] + seeds)
     entries = [e for e in work.rule_entries(G) if e is None or e.startswith('K') or e in ('Item',)][:4]
